@@ -47,6 +47,13 @@ add("C12", ENGINE_W, "exploration", "deterministic simulation: seeded interleavi
     "Per-log histories over 2..5 logs (shared keys, cross-log replays) are interleaved by the seeded scheduler at storage-operation granularity and each is replayed alone in a fresh world; verdict sequences and final bytes must agree per log; duplicate-origin configurations must be refused by the real loader. The cross-component ID agreement is exercised by the Main-level, bastion and distributor checks.",
     BASE_NOTE, "DESIGN.md 5/C12")
 
+add("C06", ENGINE_CRASH, "fault_enumeration", "deterministic fault enumeration: real SIGKILL of a child process at every database-driver boundary and every numbered SQLite VFS operation (clean and torn), reopen, recovery + behavioural oracle",
+    "For each seeded history every kill point of the stated kinds is executed: the child process running the real witness on file-backed SQLite kills itself before/after each driver operation and at each VFS write/sync/truncate/delete (clean or torn); a fresh handle reopens the store and checks old-or-new, valid cosignatures, integrity, the log list and the acknowledgements; the history continues (sometimes into a second kill) and the restarted witness must refuse forks and accept the honest next step.",
+    "Process kill, not power loss (page cache survives; unsynced-write reordering not modelled). cmd/omniwitness/monolith.go's own sql.Open line is not executed; the harness opens SQLite the same way. " + BASE_NOTE, "DESIGN.md 3.7, 5/C06")
+add("C07", ENGINE_W, "fault_enumeration", "deterministic fault enumeration: every single storage-fault position at interface and SQL-driver level per seeded history, sampled multi-fault and SQLite VFS I/O-error windows, fault-free tail, wedge detection by the scheduler",
+    "Per seeded history a dry run lists every storage call; every single fault position x error kind is then executed at the interface level (both stores) or the SQL-driver level (SQLite), plus sampled multi-fault patterns and VFS-level IOERR/FULL/short-write windows; each execution ends in a fault-free tail. Oracles: no false success, no change on failure, no TOFU on a failing read, tail builds on the last committed state, no wedge / leaked handle / connection in use.",
+    "Injected faults are fail-stop and limited to what the real stores can do. " + BASE_NOTE, "DESIGN.md 3.6, 5/C07")
+
 NOT_YET = {}
 
 
@@ -84,6 +91,8 @@ def main():
         "engines": [
             {"name": ENGINE_W, "path": "/verif/sim", "serves_properties": sorted(k for k, v in CHECKS.items() if v["engine"] == ENGINE_W),
              "kind_free_text": "real witness + real stores (in-memory, file-backed SQLite) behind a storage seam, harness clients, seeded quiescence scheduler, synctest fake clock, reference tree/model oracles"},
+            {"name": ENGINE_CRASH, "path": "/verif/sim", "serves_properties": sorted(k for k, v in CHECKS.items() if v["engine"] == ENGINE_CRASH),
+             "kind_free_text": "child processes of the same test binary running the real witness on file-backed SQLite under a wrapping database/sql driver and a shim SQLite VFS; real SIGKILL at numbered operations; parent reopens and checks"},
         ],
         "checks": checks,
         "not_applicable": na,
